@@ -8,6 +8,7 @@ CONSTANTS
   MaxPauses = 0
   TimeoutTicks = 2
   MaxTicks = 3
+  Weaken = "none"
 INVARIANTS PredictedDst TFidelity TNoFalseSuccess
 CONSTRAINT HW
 POSTCONDITION Accepted
